@@ -233,6 +233,8 @@ func exec1(op string) vlib.Res {
 		return execWrite(f)
 	case "msg fingerprint":
 		return execFingerprint()
+	case "cache strip":
+		return execCacheStrip(f[2], f[3])
 	case "cache view":
 		return execCacheView(f[2])
 	case "msg doq":
@@ -243,6 +245,8 @@ func exec1(op string) vlib.Res {
 		return execLibRoom()
 	case "msg cache":
 		return execCache()
+	case "msg stripped":
+		return execStripped()
 	case "msg cachepair":
 		return execCachePair()
 	case "pool dirty":
@@ -647,6 +651,58 @@ func execFingerprint() vlib.Res {
 	return vlib.Res{Impl: got.kind, Oracle: or, Tags: "nt,fingerprint"}
 }
 
+// `cache strip <answer kinds> <authority kinds>`: the DO=0 body admission prepares; kinds: t = a TXT record of
+// the question's RRset, s = SOA, r = RRSIG, c = NSEC, 3 = NSEC3.
+func execCacheStrip(an, ns string) vlib.Res {
+	mkRR := func(k byte, i int) dns.RR {
+		h := func(t uint16) dns.RR_Header {
+			return dns.RR_Header{Name: "strip.example.", Rrtype: t, Class: dns.ClassINET, Ttl: 60}
+		}
+		switch k {
+		case 'r':
+			return &dns.RRSIG{Hdr: h(dns.TypeRRSIG), TypeCovered: dns.TypeTXT, Algorithm: 13, Labels: 2, OrigTtl: 60, Expiration: 1800000000, Inception: 1700000000, KeyTag: uint16(i), SignerName: "example.", Signature: "c2lnbmF0dXJl"}
+		case 'c':
+			return &dns.NSEC{Hdr: h(dns.TypeNSEC), NextDomain: "z.example.", TypeBitMap: []uint16{dns.TypeTXT, dns.TypeRRSIG, dns.TypeNSEC}}
+		case '3':
+			return &dns.NSEC3{Hdr: h(dns.TypeNSEC3), Hash: 1, Iterations: 0, SaltLength: 0, Salt: "", HashLength: 20, NextDomain: "2T7B4G4VSA5SMI47K61MV5BV1A22BOJR", TypeBitMap: []uint16{dns.TypeTXT}}
+		case 's':
+			return &dns.SOA{Hdr: h(dns.TypeSOA), Ns: "ns.example.", Mbox: "h.example.", Serial: uint32(i), Refresh: 2, Retry: 3, Expire: 4, Minttl: 5}
+		}
+		return &dns.TXT{Hdr: h(dns.TypeTXT), Txt: []string{fmt.Sprintf("t%d", i)}}
+	}
+	mk := func() *dns.Msg {
+		m := new(dns.Msg)
+		m.SetQuestion("strip.example.", dns.TypeTXT)
+		m.Id = 5
+		m.Response = true
+		if an != "-" {
+			for i := 0; i < len(an); i++ {
+				m.Answer = append(m.Answer, mkRR(an[i], i))
+			}
+		}
+		if ns != "-" {
+			for i := 0; i < len(ns); i++ {
+				m.Ns = append(m.Ns, mkRR(ns[i], 100+i))
+			}
+		}
+		return m
+	}
+	under, pristine := mk(), mk()
+	e := cache.NewCacheEntryWithKey(under, time.Minute, 0, 1)
+	impl := "not-admitted"
+	if e != nil {
+		impl = "none"
+		if b := cache.VerifC15EntryStripped(e); len(b) >= 12 {
+			impl = fmt.Sprintf("an=%d ns=%d", int(b[6])<<8|int(b[7]), int(b[8])<<8|int(b[9]))
+		}
+	}
+	or := "ok"
+	if !unchanged(under, pristine) {
+		or = "FAIL sig=stripped/message-mutated/" + mutationClass(under, pristine)
+	}
+	return vlib.Res{Impl: impl, Oracle: or, Tags: "nt,stripped"}
+}
+
 // `cache view <kinds>`: what admission keeps of an additional section.
 func execCacheView(kinds string) vlib.Res {
 	mk := func() *dns.Msg {
@@ -760,6 +816,79 @@ func execCache() vlib.Res {
 		or = "FAIL sig=cache/message-mutated/" + mutationClass(under.m, pristine.m)
 	}
 	return vlib.Res{Impl: got.String(), Oracle: or, Tags: strings.Join(tags, ",")}
+}
+
+// the DO=0 body an entry prepares at admission (prepareStripped): the library's encoding of the storable
+// view with RRSIG/NSEC/NSEC3 removed from answer and authority — whether or not the pooled packer
+// handled it — present exactly when the entry carries DNSSEC, the question is not RRSIG and that body is
+// byte-servable (prepareWireServe's verdict on the LIBRARY's bytes).
+func execStripped() vlib.Res {
+	if cur == nil {
+		return vlib.Res{Impl: "bad-op"}
+	}
+	under, ref, pristine := rebuild(), rebuild(), rebuild()
+	view := storableView(ref.m)
+	full := libPack(view)
+	var e *cache.CacheEntry
+	got := capture(func() ([]byte, error) {
+		e = cache.NewCacheEntryWithKey(under.m, time.Minute, 0, 1)
+		if e == nil {
+			return nil, errors.New("not-admitted")
+		}
+		return cache.VerifC15EntryStripped(e), nil
+	})
+	if got.kind != "ok" || full.kind != "ok" {
+		if (got.kind == "ok") != (full.kind == "ok") {
+			return vlib.Res{Impl: got.kind, Oracle: "FAIL sig=stripped/admission-differs-from-library got=" + got.kind + " want=" + full.kind, Tags: "nt,stripped"}
+		}
+		return vlib.Res{Impl: got.kind, Oracle: "ok", Tags: "nt,stripped"}
+	}
+	var want []byte
+	_, hasSec, _ := cache.VerifC15WireFlags(full.b)
+	if hasSec && len(view.Question) > 0 && view.Question[0].Qtype != dns.TypeRRSIG {
+		sv := *storableView(rebuild().m)
+		drop := func(in []dns.RR) []dns.RR {
+			var out []dns.RR
+			for _, rr := range in {
+				switch rr.(type) {
+				case *dns.RRSIG, *dns.NSEC, *dns.NSEC3:
+				default:
+					out = append(out, rr)
+				}
+			}
+			return out
+		}
+		sv.Answer, sv.Ns = drop(sv.Answer), drop(sv.Ns)
+		sv.Compress = true
+		if sp := libPack(&sv); sp.kind == "ok" {
+			if el, sec, chase := cache.VerifC15WireFlags(sp.b); el && chase && !sec {
+				want = sp.b
+			}
+		}
+	}
+	impl := "none"
+	if got.b != nil {
+		impl = fmt.Sprintf("stripped/%d", len(got.b))
+	}
+	or := "ok"
+	switch {
+	case want != nil && got.b == nil:
+		or = fmt.Sprintf("FAIL sig=stripped/do0-body-missing want=%d bytes ulen-of-stripped-view>4096=%v", len(want), under.ulen() > 4096)
+	case want == nil && got.b != nil:
+		or = "FAIL sig=stripped/do0-body-present-where-none-is-due"
+	case want != nil && !bytes.Equal(got.b, want):
+		or = fmt.Sprintf("FAIL sig=stripped/do0-body-differs-from-library/%s got=%d want=%d", diffClass(got.b, want), len(got.b), len(want))
+	case !unchanged(under.m, pristine.m):
+		or = "FAIL sig=stripped/message-mutated/" + mutationClass(under.m, pristine.m)
+	}
+	tags := "nt,stripped"
+	if want != nil {
+		tags += ",stripped-due"
+		if len(want) > 4096 || under.ulen() > 4500 {
+			tags += ",stripped-big"
+		}
+	}
+	return vlib.Res{Impl: impl, Oracle: or, Tags: tags}
 }
 
 // the same response admitted twice: as it is (pooled packer) and with one
@@ -974,7 +1103,7 @@ func flagsStr(v int) string {
 	return sb.String()
 }
 
-var profiles = []string{"plain", "plain", "types", "types", "optmix", "bad", "rcode", "names", "size", "size", "qcount", "zero", "hdr", "svcbopt", "bigopt", "cdn", "cdn", "manynames", "skipwrite"}
+var profiles = []string{"plain", "plain", "types", "types", "optmix", "bad", "rcode", "names", "size", "size", "qcount", "zero", "hdr", "svcbopt", "bigopt", "cdn", "cdn", "manynames", "skipwrite", "signed", "signed"}
 
 func gen(r *vlib.R, n int, tier string, emit func(string)) {
 	count := 0
@@ -1041,6 +1170,16 @@ func gen(r *vlib.R, n int, tier string, emit func(string)) {
 		}
 	}
 	recv(nil)
+	// the DO=0 body: every answer/authority shape of up to 3+2 records over {TXT, SOA, RRSIG, NSEC, NSEC3}
+	sk := []string{"t", "r", "c", "3", "s"}
+	for _, a := range []string{"-", "t", "r", "tr", "tt", "trt", "rtr", "tc", "t3r", "ttr"} {
+		for _, n1 := range append([]string{"-"}, sk...) {
+			e("cache strip " + a + " " + n1)
+			if n1 != "-" && r.Chance(1, 2) {
+				e("cache strip " + a + " " + n1 + vlib.Pick(r, sk))
+			}
+		}
+	}
 	// extended rcode rewrite: boundary TTLs x boundary rcodes, then random
 	ttls := []uint32{0, 0x8000, 0x00FFFFFF, 0x01000000, 0xFF000000, 0xFFFFFFFF, 0xAB008000, 0x00010000}
 	for _, t := range ttls {
@@ -1102,6 +1241,9 @@ func gen(r *vlib.R, n int, tier string, emit func(string)) {
 		}
 		if r.Chance(1, 8) {
 			e("msg cachepair")
+		}
+		if p == "signed" || r.Chance(1, 10) {
+			e("msg stripped")
 		}
 		if r.Chance(1, 4) {
 			e("pool dirty")
